@@ -3,21 +3,24 @@ import os, subprocess, json, select, time, sys
 from . import build
 REPLAY_DIR = build.crate_copy('replay')
 
-def build_driver(profiles=('dev',)):
-    """(re)build the driver; the path dependency makes cargo rebuild the crate from /repo's working tree."""
+def _tdir(features): return 'target' if not features else 'target-' + '-'.join(features)
+def build_driver(profiles=('dev',), features=()):
+    """(re)build the driver; the path dependency makes cargo rebuild the crate from /repo's working tree. With features (C17) the crate is built with
+    them (own target directory; `specialized` needs the nightly toolchain)."""
     out = {}
     for p in profiles:
-        cmd = ['cargo', 'build', '--offline', '--quiet'] + (['--release'] if p == 'release' else [])
+        cmd = ['cargo'] + (['+nightly'] if 'specialized' in features else []) + ['build', '--offline', '--quiet'] + (['--release'] if p == 'release' else [])
+        if features: cmd += ['--features', ','.join(features), '--target-dir', _tdir(features)]
         r = subprocess.run(cmd, cwd=REPLAY_DIR, env=build.cargo_env(), capture_output=True, text=True)
         if r.returncode != 0:
             sys.stderr.write(r.stderr[-3000:])
             raise RuntimeError('replay driver build failed')
-        out[p] = os.path.join(REPLAY_DIR, 'target', 'debug' if p == 'dev' else 'release', 'jmreplay')
+        out[p] = os.path.join(REPLAY_DIR, _tdir(features), 'debug' if p == 'dev' else 'release', 'jmreplay')
     return out
 
 class Native:
-    def __init__(s, profile='dev', timeout=10.0):
-        s.bin = os.path.join(REPLAY_DIR, 'target', 'debug' if profile == 'dev' else 'release', 'jmreplay')
+    def __init__(s, profile='dev', timeout=10.0, features=()):
+        s.bin = os.path.join(REPLAY_DIR, _tdir(features), 'debug' if profile == 'dev' else 'release', 'jmreplay')
         s.timeout = timeout; s.p = None; s.n = 0; s.profile = profile
     def _start(s):
         s.p = subprocess.Popen([s.bin], stdin=subprocess.PIPE, stdout=subprocess.PIPE, stderr=subprocess.DEVNULL, text=True, bufsize=1)
